@@ -116,15 +116,15 @@ Definition own_endpoint_b (c : iconfig) (svc : string) (b : option string) (d : 
 Definition any_own_b (c : iconfig) (svc : string) (b : option string) : bool :=
   existsb (fun ctx => existsb (covers_any_b b) (eps c ctx svc)) (roles (etype c)).
 
-Definition spec_b (x : iinput) (v : verdict) : bool :=
+Definition spec_with_b (requires certonly : bool) (x : iinput) (v : verdict) : bool :=
   negb (verdict_eqb v Accept) ||
   (let c := cfg x in
    let svc := service_of (expected x) in
-   (negb (requires_b c)
+   (negb requires
     || (if opt_eqb String.eqb (binding x) (Some BINDING_HTTP_REDIRECT) then detached_valid_b x
         else match env x with Some _ => true | None => false end))
    && match env x with
-      | Some e => enveloped_valid_b x e || truthy (only_valid_cert c)
+      | Some e => enveloped_valid_b x e || certonly
       | None => true
       end
    && match destination (msg x) with
@@ -134,6 +134,30 @@ Definition spec_b (x : iinput) (v : verdict) : bool :=
    && String.eqb (version (msg x)) "2.0"
    && ((now x - 86400 - skew c <=? issued (msg x)) && (issued (msg x) <=? now x + 86400 + skew c))%Z).
 
+(* in-memory reading *)
+Definition spec_b (x : iinput) (v : verdict) : bool :=
+  spec_with_b (requires_b (cfg x)) (truthy (only_valid_cert (cfg x))) x v.
+
+(* as-written reading *)
+Definition says_yes_b (v : cval) : bool :=
+  match v with
+  | CBool b => b
+  | CInt z => negb (Z.eqb z 0)
+  | CStr s => mem (lower (strip s)) yes_words
+  | CAbsent | CNone => false
+  end.
+
+Definition says_no_b (v : cval) : bool :=
+  match v with
+  | CAbsent | CNone => true
+  | CBool b => negb b
+  | CInt z => Z.eqb z 0
+  | CStr s => mem (lower (strip s)) no_words
+  end.
+
+Definition spec_src_b (s : source) (x : iinput) (v : verdict) : bool :=
+  spec_with_b (says_yes_b (s_ws s) || says_yes_b (s_ovc s)) (negb (says_no_b (s_ovc s))) x v.
+
 (* ---------- cases ---------- *)
 Definition verdict_of_nat (n : nat) : option verdict :=
   match n with
@@ -142,7 +166,13 @@ Definition verdict_of_nat (n : nat) : option verdict :=
   | _ => None           (* anything else the implementation did *)
   end.
 
-Definition case := (iinput * option verdict)%type.
+(* a case: the receiver's input as the model configures it from the source, the source (the two options as
+   written) with what Config.getattr answered for them on the real receiver after loading, and the verdict *)
+Record seen := { src : source; got_ws : cval; got_ovc : cval }.
+Definition case := (iinput * seen * option verdict)%type.
+Definition c_in (c : case) : iinput := fst (fst c).
+Definition c_seen (c : case) : seen := snd (fst c).
+Definition c_out (c : case) : option verdict := snd c.
 
 Fixpoint lookup_eps (l : list (string * string * list epspec)) (ctx svc : string) : list epspec :=
   match l with
@@ -160,19 +190,21 @@ Definition mdtab := list (string * list nat).
 Definition mdf (t : mdtab) : option string -> list nat :=
   fun o => match o with Some e => lookup_md t e | None => [] end.
 
-(* mk: receiver configuration, clock, entry point, binding, transport encoding, message fields,
-   enveloped signature (signer, content altered after signing, profile constraints met, embedded
-   certificates), RelayState / SigAlg / Signature as handed in — the detached signature is
-   None = not a signature, or (signer, other document signed?, RelayState signed, SigAlg signed) —
-   and the verdict observed on the implementation *)
-Definition mk (etyp : string) (epl : list (string * string * list epspec)) (ws ovc : option bool)
+(* mk: receiver configuration (the two options AS WRITTEN: ws, ovc; and as Config.getattr answered them after
+   loading: gws, govc - CAbsent stands for the answer None), clock, entry point, binding, transport
+   encoding, message fields, enveloped signature (signer, content altered after signing, profile
+   constraints met, embedded certificates), RelayState / SigAlg / Signature as handed in — the detached
+   signature is None = not a signature, or (signer, other document signed?, RelayState signed, SigAlg
+   signed) — and the verdict observed on the implementation *)
+Definition mk (etyp : string) (epl : list (string * string * list epspec)) (ws ovc gws govc : cval)
     (td : option Z) (omd : bool) (mdl : list (string * list nat)) (valid : option (list nat))
     (nw : Z) (exp : kind) (bnd : option string) (w : wire)
     (bk : kind) (ver : string) (dst : option string) (iss : Z) (issr : option string) (xsd inst : bool)
     (envs : option (nat * bool * bool * list nat))
     (rs sa : option string) (sg : option (option (nat * bool * option string * string)))
     (obs : nat) : case :=
-  let c := Build_config etyp (lookup_eps epl) ws ovc td omd
+  let sc := {| s_ws := ws; s_ovc := ovc |} in
+  let c := Build_config etyp (lookup_eps epl) None None td omd
              (mdf mdl)
              (fun ct => match valid with None => true | Some l => memn ct l end) in
   let b := Build_body bk ver dst iss issr xsd inst 7 in
@@ -186,17 +218,45 @@ Definition mk (etyp : string) (epl : list (string * string * list epspec)) (ws o
            | Some None => Some None
            | Some (Some (k, otherdoc, rs', sa')) => Some (Some (k, ((if otherdoc then 2 else 1), rs', sa')))
            end in
-  (Build_input c nw exp bnd w 1 b e rs sa g, verdict_of_nat obs).
+  (load_src sc (Build_input c nw exp bnd w 1 b e rs sa g), {| src := sc; got_ws := gws; got_ovc := govc |},
+   verdict_of_nat obs).
 
+Definition cval_eqb (a b : cval) : bool :=
+  match a, b with
+  | CAbsent, CAbsent | CNone, CNone => true
+  | CBool x, CBool y => Bool.eqb x y
+  | CInt x, CInt y => Z.eqb x y
+  | CStr x, CStr y => String.eqb x y
+  | _, _ => false
+  end.
+
+(* Config.getattr answers None both for an option that was never stored and for a stored None *)
+Definition getattr_of (v : cval) : cval := match load_special_val v with CNone => CAbsent | w => w end.
+
+(* the model agrees: the loader stores what Model.load_special_val says, and the verdict is the model's *)
 Definition agrees (c : case) : bool :=
-  match snd c with Some v => verdict_eqb (imodel (fst c)) v | None => false end.
-(* an outcome outside the enumeration is a rejection: the property holds, the model disagrees *)
+  cval_eqb (getattr_of (s_ws (src (c_seen c)))) (got_ws (c_seen c))
+  && cval_eqb (getattr_of (s_ovc (src (c_seen c)))) (got_ovc (c_seen c))
+  && match c_out c with Some v => verdict_eqb (imodel (c_in c)) v | None => false end.
+(* an outcome outside the enumeration is a rejection: the property holds, the model disagrees.
+   The property is evaluated in the as-written reading (which implies the in-memory one wherever the loaded
+   options are what the model says; the in-memory reading alone would not see a loader that misreads). *)
 Definition holds (c : case) : bool :=
-  match snd c with Some v => spec_b (fst c) v | None => true end.
+  match c_out c with Some v => spec_src_b (src (c_seen c)) (c_in c) v | None => true end.
+(* finding C07-F2 (fixed by 9e47ced6; kept to name a regression): the certificate-only option is a text that says
+   no and yet counts as set by its truth value, and nothing but the claim of that opt-in is wrong with the outcome *)
+Definition in_f2 (c : case) : bool :=
+  let o := s_ovc (src (c_seen c)) in
+  says_no_b o && (match stored o with Some true => true | _ => false end)
+  && match c_out c with
+     | Some v => spec_with_b (says_yes_b (s_ws (src (c_seen c))) || says_yes_b o) true (c_in c) v
+     | None => true
+     end.
 Definition explain1 (c : case) :=
-  (imodel (fst c), snd c,
-   receiver_addrs (cfg (fst c)) (service_of (expected (fst c))) (binding (fst c)),
-   match snd c with Some v => spec_b (fst c) v | None => true end).
+  (imodel (c_in c), c_out c,
+   receiver_addrs (cfg (c_in c)) (service_of (expected (c_in c))) (binding (c_in c)),
+   (want_signed (cfg (c_in c)), only_valid_cert (cfg (c_in c)), c_seen c),
+   holds c).
 
 (* ---------- lives ----------
    A test case is one request on a receiver (One) or the life of a process (Life): the metadata
@@ -215,15 +275,15 @@ Inductive tcase := One (c : case) | Life (init : list mdtab) (ops : list lop).
 Definition iop := op nat iesig idsig nat.
 Definition to_op (o : lop) : iop :=
   match o with
-  | LReq r c => Req r (fst c)
+  | LReq r c => Req r (c_in c)
   | LReload r t => Reload r (mdf t)
   | LReloadFailed r => ReloadFailed r
   end.
 
-Fixpoint observed (ops : list lop) : list (option verdict) :=
+Fixpoint observed (ops : list lop) : list (seen * option verdict) :=
   match ops with
   | [] => []
-  | LReq _ c :: t => snd c :: observed t
+  | LReq _ c :: t => (c_seen c, c_out c) :: observed t
   | _ :: t => observed t
   end.
 
@@ -235,14 +295,16 @@ Definition ilife (init : list mdtab) (ops : list lop) : list (iinput * verdict) 
 
 (* (effective input, observed verdict) of every request of the life *)
 Definition life_cases (init : list mdtab) (ops : list lop) : list case :=
-  map (fun po => (fst (fst po), snd po)) (combine (ilife init ops) (observed ops)).
+  map (fun po => (fst (fst po), fst (snd po), snd (snd po))) (combine (ilife init ops) (observed ops)).
 
 Definition cases_of (t : tcase) : list case :=
   match t with One c => [c] | Life init ops => life_cases init ops end.
 
 Definition tagrees (t : tcase) : bool := forallb agrees (cases_of t).
 Definition tholds (t : tcase) : bool := forallb holds (cases_of t).
-Definition cls (t : tcase) : nat := 0.
+(* class 2 (finding C07-F2) only when every failing request of the case is inside it *)
+Definition cls (t : tcase) : nat :=
+  if forallb (fun c => holds c || in_f2 c) (cases_of t) then 2 else 0.
 Definition run := run_cases tagrees tholds cls.
 Definition explain (t : tcase) := map explain1 (cases_of t).
 
@@ -324,14 +386,17 @@ Proof.
     apply binding_covered_iff. tauto.
 Qed.
 
-Lemma spec_b_iff x v : spec_b x v = true <-> spec icert_of iesign idsign x v.
+Lemma spec_with_b_iff (R C : bool) (RP CP : Prop) x v :
+  (R = true <-> RP) -> (C = true <-> CP) ->
+  spec_with_b R C x v = true <-> spec_with icert_of iesign idsign RP CP x v.
 Proof.
-  unfold spec_b, spec. cbv zeta. destruct (verdict_eqb v Accept) eqn:Ev; cbn [negb orb].
+  intros HR HC.
+  unfold spec_with_b, spec_with. cbv zeta. destruct (verdict_eqb v Accept) eqn:Ev; cbn [negb orb].
   2:{ split; [|reflexivity]. intros _ H. apply verdict_eqb_eq in H. congruence. }
   apply verdict_eqb_eq in Ev. subst v.
   rewrite !andb_true_iff. split.
   - intros [[[[H1 H2] H3] H4] H5] _. split; [|split; [|split; [|split]]].
-    + intros Hreq. apply requires_b_iff in Hreq. rewrite Hreq in H1. cbn [negb orb] in H1. split.
+    + intros Hreq. apply HR in Hreq. rewrite Hreq in H1. cbn [negb orb] in H1. split.
       * intros Hb. rewrite Hb in H1. cbn [opt_eqb] in H1. rewrite String.eqb_refl in H1.
         apply detached_valid_b_iff. exact H1.
       * intros Hb. destruct (opt_eqb String.eqb (binding x) (Some BINDING_HTTP_REDIRECT)) eqn:Eb.
@@ -339,7 +404,7 @@ Proof.
         destruct (env x); [discriminate|discriminate].
     + intros e He. rewrite He in H2. apply orb_true_iff in H2 as [H2|H2].
       * left. apply enveloped_valid_b_iff. exact H2.
-      * right. apply truthy_iff. exact H2.
+      * right. apply HC. exact H2.
     + intros d Hd Hne Hex. rewrite Hd in H3. apply orb_true_iff in H3 as [H3|H3].
       * apply orb_true_iff in H3 as [H3|H3]; [apply is_empty_true in H3; contradiction|].
         apply any_own_b_iff in Hex. rewrite Hex in H3. discriminate.
@@ -348,14 +413,14 @@ Proof.
     + lia.
   - intros H. destruct (H eq_refl) as (H1 & H2 & H3 & H4 & H5). clear H.
     split; [split; [split; [split|]|]|].
-    + destruct (requires_b (cfg x)) eqn:Er; [|reflexivity]. cbn [negb orb].
-      apply requires_b_iff in Er. destruct (H1 Er) as [Ha Hb].
+    + destruct R eqn:Er; [|reflexivity]. cbn [negb orb].
+      assert (Hrp : RP) by (apply HR; reflexivity). destruct (H1 Hrp) as [Ha Hb].
       destruct (opt_eqb String.eqb (binding x) (Some BINDING_HTTP_REDIRECT)) eqn:Eb.
       * apply opt_str_eqb_eq in Eb. apply detached_valid_b_iff. auto.
       * destruct (env x) eqn:Ee; [reflexivity|]. exfalso. apply Hb; [|reflexivity].
         intros Hbb. apply opt_str_eqb_eq in Hbb. congruence.
     + destruct (env x) as [e|] eqn:Ee; [|reflexivity]. apply orb_true_iff.
-      destruct (H2 e eq_refl) as [Hv|Hc]; [left; apply enveloped_valid_b_iff; exact Hv|right; apply truthy_iff; exact Hc].
+      destruct (H2 e eq_refl) as [Hv|Hc]; [left; apply enveloped_valid_b_iff; exact Hv|right; apply HC; exact Hc].
     + destruct (destination (msg x)) as [d|] eqn:Ed; [|reflexivity].
       destruct (is_empty d) eqn:Ee; [reflexivity|]. cbn [orb].
       destruct (any_own_b (cfg x) (service_of (expected x)) (binding x)) eqn:Ea; [|reflexivity]. cbn [negb orb].
@@ -363,6 +428,35 @@ Proof.
       intros ->. discriminate.
     + apply String.eqb_eq. exact H4.
     + lia.
+Qed.
+
+Lemma spec_b_iff x v : spec_b x v = true <-> spec icert_of iesign idsign x v.
+Proof.
+  unfold spec_b, spec. apply spec_with_b_iff; [apply requires_b_iff|].
+  unfold cert_only. apply truthy_iff.
+Qed.
+
+Lemma says_yes_b_iff v : says_yes_b v = true <-> says_yes v.
+Proof.
+  destruct v as [| |b|z|s]; cbn [says_yes_b says_yes]; try (split; [discriminate|contradiction]).
+  - tauto.
+  - rewrite negb_true_iff, Z.eqb_neq. tauto.
+  - apply mem_In.
+Qed.
+
+Lemma says_no_b_iff v : says_no_b v = true <-> says_no v.
+Proof.
+  destruct v as [| |b|z|s]; cbn [says_no_b says_no]; try tauto.
+  - destruct b; cbn; split; congruence.
+  - apply Z.eqb_eq.
+  - apply mem_In.
+Qed.
+
+Lemma spec_src_b_iff s x v : spec_src_b s x v = true <-> spec_src icert_of iesign idsign s x v.
+Proof.
+  unfold spec_src_b, spec_src. apply spec_with_b_iff.
+  - unfold requires_src. rewrite orb_true_iff, !says_yes_b_iff. tauto.
+  - unfold cert_only_src. rewrite negb_true_iff, <- says_no_b_iff. destruct (says_no_b (s_ovc s)); split; congruence.
 Qed.
 
 (* the instance satisfies the hypotheses of the general theorems *)
@@ -384,11 +478,19 @@ Qed.
    spec_b: every observed verdict satisfies the stated spec on the effective input of its step *)
 Lemma tholds_sound t :
   tholds t = true ->
-  Forall (fun c => match snd c with Some v => spec icert_of iesign idsign (fst c) v | None => True end) (cases_of t).
+  Forall (fun c => match c_out c with
+                   | Some v => spec_src icert_of iesign idsign (src (c_seen c)) (c_in c) v
+                   | None => True
+                   end) (cases_of t).
 Proof.
   unfold tholds. intros H0. pose proof (proj1 (forallb_forall _ _) H0) as H. apply Forall_forall. intros c Hc. specialize (H c Hc). revert H.
-  unfold holds. destruct c as [x [v|]]; cbn [fst snd]; [intros H; apply spec_b_iff; exact H|intros _; exact I].
+  unfold holds. destruct (c_out c) as [v|]; [intros H; apply spec_src_b_iff; exact H|intros _; exact I].
 Qed.
+
+(* ---------- the configuration as written, on the instance ---------- *)
+Lemma instance_sound_src (s : source) (x : iinput) :
+  spec_src icert_of iesign idsign s (load_src s x) (imodel (load_src s x)).
+Proof. apply soundness_src; [exact ieverify_spec|exact idverify_spec]. Qed.
 
 (* non-vacuity: a request that IS processed under a signing requirement, over POST (enveloped) and
    over Redirect (detached) *)
@@ -420,4 +522,39 @@ Proof. split; [left; reflexivity|vm_compute; reflexivity]. Qed.
 Example unsigned_post_rejected :
   imodel (Build_input ex_cfg 1700000000 AuthnRequest (Some BINDING_HTTP_POST) WBase64 1
             (ex_body "https://idp.example.org/sso/post") None None None None) = RejSig.
+Proof. vm_compute. reflexivity. Qed.
+
+(* ---------- the requirement as written ---------- *)
+(* spelled 'True' (a text, not the Boolean, not the exact text "true"): still a requirement *)
+Definition src_True : source := {| s_ws := CStr "True"; s_ovc := CAbsent |}.
+Example spelled_True_unsigned_rejected :
+  requires_src src_True
+  /\ imodel (load_src src_True (Build_input ex_cfg 1700000000 AuthnRequest (Some BINDING_HTTP_POST) WBase64 1
+               (ex_body "https://idp.example.org/sso/post") None None None None)) = RejSig
+  /\ imodel (load_src src_True ex_post) = Accept.
+Proof. split; [left; vm_compute; auto|split; vm_compute; reflexivity]. Qed.
+
+(* finding C07-F2 (fixed by 9e47ced6): want_authn_requests_only_with_valid_cert written as the text "False" is a
+   non-empty string and, read by its truth value (load_src_v0), counted as set: a request whose enveloped
+   signature does not verify (the content was altered after signing) was processed although the operator said
+   no to certificate-only validation *)
+Definition src_ovc_False : source := {| s_ws := CAbsent; s_ovc := CStr "False" |}.
+Definition ex_tampered : iinput :=
+  let b := ex_body "https://idp.example.org/sso/post" in
+  let signed := Build_body AuthnRequest "2.0" (Some "https://idp.example.org/sso/post") 1700000000
+                  (Some "https://sp.example.org/sp.xml") true true 8 in
+  Build_input ex_cfg 1700000000 AuthnRequest (Some BINDING_HTTP_POST) WBase64 1 b
+    (Some (Build_envsig (1, signed) true [])) None None None.
+
+Lemma src_v0_refuted :
+  exists (s : source) (x : iinput),
+    ~ spec_src icert_of iesign idsign s (load_src_v0 s x) (imodel (load_src_v0 s x)).
+Proof.
+  exists src_ovc_False, ex_tampered. intros H. apply spec_src_b_iff in H. vm_compute in H. discriminate.
+Qed.
+
+(* ... the witness is inside the class the v0 guard excludes, and the code as it is now rejects it *)
+Example src_ovc_False_misread : misread_no (s_ovc src_ovc_False).
+Proof. exists "False". repeat split; try discriminate. vm_compute. auto. Qed.
+Example src_ovc_False_now_rejected : imodel (load_src src_ovc_False ex_tampered) = RejSig.
 Proof. vm_compute. reflexivity. Qed.
